@@ -243,7 +243,6 @@ struct BatchSemaphoreState {
 
 impl BatchSemaphoreState {
     fn acquire_permits(&mut self, num_permits: usize, fairness: Fairness) -> Result<(), TryAcquireError> {
-        assert!(num_permits > 0);
         if self.closed {
             Err(TryAcquireError::Closed)
         } else if self.waiters.is_empty() || matches!(fairness, Fairness::Unfair) {
